@@ -5,7 +5,7 @@ import os, re, shutil
 import runner as R
 from props import toks, flag
 
-DET_FIELDS = ('read', 'closed', 'closes', 'trace', 'unh', 'escaped', 'donecloses', 'leak', 'vals', 'err', 'ctx')
+DET_FIELDS = ('read', 'closed', 'closes', 'trace', 'unh', 'escaped', 'donecloses', 'leak', 'vals', 'err', 'ctx', 'gone')
 
 
 def op_of(case):
@@ -39,8 +39,11 @@ def oracle_det(case, gd):
     """model-free oracles on the implementation result of a kind=chan case"""
     if flag(gd) and flag(gd) != 'blocks':   # `blocks`: Collect over a stream without terminal, not run
         return f'harness flag {flag(gd)}'
-    if gd.get('escaped', '-') != '-':
+    if gd.get('escaped', '-') != '-' and not (field(case, 'tdp', '0') == '1' and gd['escaped'] == 'tdpanic'):
+        # (tdp=1: the scripted source's own teardown panics on purpose; that panic is the caller's)
         return 'escape: a panic escaped from the library into the caller (' + gd['escaped'] + ')'
+    if field(case, 'tdp', '0') == '1' and (gd.get('gone', '1') != '1' or gd.get('closed', '1') != '1'):
+        return 'release: the channel was not closed although the teardown ran (upstream teardown panicked)'
     if gd.get('closes') == '2' or gd.get('donecloses') == '2':
         return 'double-close: close of closed channel'
     if 'read' in gd and not terminal_last(toks(gd['read'])):
